@@ -127,6 +127,8 @@ fn str_case_strategy() -> BoxedStrategy<StrCase> {
         prop_oneof![
             6 => gens::pick(&[Some('.'), Some('-'), Some('_')]),
             2 => gens::pick(&[Some('+'), Some('~'), Some(' '), Some('/'), Some(':')]),
+            // a separator need not be ASCII
+            1 => gens::pick(&[Some('·'), Some('–'), Some('→'), Some('\u{3000}'), Some('|')]),
             1 => Just(None)
         ],
         any::<bool>(),
@@ -312,7 +314,7 @@ pub fn property() -> Property {
         id: "C16",
         rule: "cases = (input string, separator, lowercase, keep_zeros, max_length); exhaustive over short strings of a 9-symbol alphabet x 112 settings, random Unicode/nasty strings x random settings, the three presets + uint, and the template function path. Non-trivial = input contains a character outside [A-Za-z0-9] or an all-digit run with a leading zero; distinct = distinct (input, settings) tuples (enumeration never repeats; random cases de-duplicated by hash).",
         assumptions: vec![
-            "separator is a single non-alphanumeric ASCII character (or none)",
+            "separator is a single non-alphanumeric character, ASCII or not (or none)",
             "with max_length, any re-normalised prefix of the unbounded contract output is accepted",
             "uint: input with surrounding whitespace may yield \"\" or the trimmed digits",
         ],
